@@ -203,7 +203,69 @@ def r_feeder(e, R):
                     ok = len(c.args) == 2 and isinstance(c.args[0], ast.Name) and c.args[0].id == H.ast.name
                     R.check(ok, "R-FEEDER", f"{f.short}: the hook gets (exception, failed object)", f.short, norm(c),
                             "the error hook is not given the exception and the object that failed", e.loc(f, c))
-    R.floor("R-FEEDER", 6)
+    # ---- polarity / totality of the feed loop (scenario obligations): what is popped is sent, the sentinel ends the thread,
+    # an empty buffer is waited for
+    from . import scenario as SC
+    pops = [n for n in func_nodes(f) if isinstance(n, ast.Assign) and isinstance(n.targets[0], ast.Name) and isinstance(n.value, ast.Call)
+            and isinstance(n.value.func, ast.Name) and any(isinstance(d, ast.Assign) and isinstance(d.targets[0], ast.Name) and d.targets[0].id == n.value.func.id
+                                                            and isinstance(d.value, ast.Attribute) and d.value.attr in ("popleft", "pop") for d in func_nodes(f))]
+    if len(pops) != 1:
+        raise AnalysisError("feeder: the pop of the next object not recognised")
+    ov = pops[0].targets[0].id
+    # only the loop body after the pop is of interest: start the traversal at the pop
+    popn = [n for n in g.nodes if n.kind == "stmt" and n.ast is pops[0]]
+    sent_names = {d.targets[0].id for d in func_nodes(f) if isinstance(d, ast.Assign) and isinstance(d.targets[0], ast.Name) and isinstance(d.value, ast.Name)
+                  and d.value.id.lstrip("_").startswith("sentinel")} | {"_sentinel"}
+
+    def is_sentinel(val):
+        def ev(x):
+            if isinstance(x, ast.Compare) and len(x.ops) == 1 and isinstance(x.ops[0], (ast.Is, ast.IsNot)) and isinstance(x.left, ast.Name) and x.left.id == ov \
+                    and isinstance(x.comparators[0], ast.Name) and x.comparators[0].id in sent_names:
+                return val == isinstance(x.ops[0], ast.Is)
+            return None
+        return ev
+    lockv = {d.targets[0].id for d in func_nodes(f) if isinstance(d, ast.Assign) and isinstance(d.targets[0], ast.Name) and isinstance(d.value, ast.Attribute)
+             and d.value.attr == "acquire" and isinstance(d.value.value, ast.Name) and d.value.value.id == "writelock"}
+    posix = [(SC.name(v), "some") for v in lockv]
+    closen = lambda n: any(isinstance(c.func, ast.Name) and c.func.id == "close" for c in calls_in(n))
+    retn = lambda n: n.kind == "stmt" and isinstance(n.ast, ast.Return)
+    heads = [n for n in g.nodes if n.kind == "join" and n.tag == "loop-head"]
+    for pn in popn:
+        okE = SC.Facts(posix, [is_sentinel(False)]).edge_ok()
+        esc = g.find_path(pn, lambda n: n in heads or n is g.exit, avoid=sends, use_exc=False, edge_ok=okE)
+        R.check(esc is None and bool(sends), "R-FEEDER", f"{f.short}: an object popped from the buffer is sent before the next one is taken", f.short, "send_bytes(obj_)",
+                "the feeder drops objects it popped from the buffer: the task is never delivered and its future never resolves", e.loc(f, pn.ast),
+                g.fmt_path(esc) if esc else None)
+        okS = SC.Facts(posix, [is_sentinel(True)]).edge_ok()
+        bad = g.find_path(pn, lambda n: n in sends, use_exc=False, edge_ok=okS, avoid=lambda n: n in heads)
+        esc2 = g.find_path(pn, lambda n: n in heads or n is g.exit, avoid=lambda n: closen(n), use_exc=False, edge_ok=okS)
+        esc3 = g.find_path(pn, lambda n: n in heads, use_exc=False, edge_ok=okS)
+        R.check(bad is None and esc2 is None and esc3 is None, "R-FEEDER", f"{f.short}: the sentinel closes the pipe and ends the thread, and is never sent", f.short,
+                "if obj is sentinel: close(); return", "the close sentinel is pickled and sent to a worker, or the feeder thread never ends (join at shutdown hangs)",
+                e.loc(f, pn.ast))
+    # an empty buffer is waited for (under the condition), a non-empty one is not
+    waits = [n for n in g.nodes for c in calls_in(n) if isinstance(c.func, ast.Name) and any(isinstance(d, ast.Assign) and isinstance(d.targets[0], ast.Name)
+             and d.targets[0].id == c.func.id and isinstance(d.value, ast.Attribute) and d.value.attr == "wait" for d in func_nodes(f))]
+    bufp = f.params[0]
+    btests = [t for t in g.nodes if t.kind == "test" and t.ast is not None and any(isinstance(x, ast.Name) and x.id == bufp for x in ast.walk(t.ast))]
+    if not waits or not btests:
+        raise AnalysisError("feeder: wait on the buffer condition not recognised")
+    for t in btests:
+        okw = g.escape_path(t, lambda n: n in waits, until_pred=lambda n: n in popn, use_exc=False, edge_ok=SC.Facts([(SC.name(bufp), "F")]).edge_ok()) is None
+        okn = g.find_path(t, lambda n: n in waits, avoid=lambda n: n in popn, use_exc=False, edge_ok=SC.Facts([(SC.name(bufp), "T")]).edge_ok()) is None
+        R.check(okw and okn, "R-FEEDER", f"{f.short}: waits on the buffer condition exactly when the buffer is empty", f.short, "if not buffer: nwait()",
+                "the feeder spins on an empty buffer (100% CPU) or sleeps with objects queued (a task is delayed until the next put)", e.loc(f, t.ast))
+    # the thread is started by _start_thread with the feeder as its target
+    st = e.prog.cls("loky.backend.queues:Queue").methods.get("_start_thread")
+    if st is None:
+        raise AnalysisError("Queue._start_thread not found")
+    sg = e.cfg(st)
+    startn = lambda n: any(isinstance(c.func, ast.Attribute) and c.func.attr == "start" for c in calls_in(n))
+    tgt = [c for c in func_nodes(st) if isinstance(c, ast.Call) and any(k.arg == "target" and f.qualname in {v[1] for v in e.pt.ev(st, k.value) if v[0] == "func"} for k in c.keywords)]
+    R.check(bool(tgt) and sg.escape_path(sg.entry, startn, use_exc=False) is None and any(startn(n) for n in sg.nodes), "R-FEEDER",
+            "Queue._start_thread: creates the thread with loky's feeder as target and starts it on every path", st.short, "Thread(target=Queue._feed, ...).start()",
+            "the feeder thread is never started (nothing is ever sent) or runs the stdlib feeder without loky's reducers", e.loc(st, st.node))
+    R.floor("R-FEEDER", 10)
     R.floor("R-PAIR", 4)
 
 
